@@ -27,7 +27,7 @@ RULE = ('directed corpus (docstring examples, boundaries) + seeded blocks; every
         'on-high, above, degenerate}; no operator x {equal, substring, superstring, other}; x separators of spaces '
         'and tabs. Inputs outside the documented grammar are run as DONT-CARE and only recorded. '
         'non-trivial = every case; distinct by (value, spec)')
-REQUIRED_CLAUSES = ['numeric-op', 'string-op', 'in', 'all-in', 'or', 'range-in', 'no-operator',
+REQUIRED_CLAUSES = ['extra-whitespace-around-spec', 'numeric-op', 'string-op', 'in', 'all-in', 'or', 'range-in', 'no-operator',
                     'dont-care-recorded']
 ASSUMPTIONS = ['numeric oracle: exact rational comparison (fractions.Fraction built from the generated digit strings); '
                'asserted only for numerals with at most 15 significant digits, where float() is order- and '
@@ -262,10 +262,14 @@ def evaluate(ctx, case):
             spec = tokens[0] + join_tokens(tokens[1:], seps) if len(tokens) > 1 else tokens[0]
         else:
             spec = join_tokens(tokens, seps) + ' zzz'
-        dont_care(ctx, case, 'perturbed/%s/%s' % (perturb, kind), value, spec,
-                  ref=None if dc else expect, ref_kind=True)
-        return
-    spec = join_tokens(tokens, case.get('seps') or [' '])
+        if perturb not in ('lead-ws', 'trail-ws') or dc:
+            dont_care(ctx, case, 'perturbed/%s/%s' % (perturb, kind), value, spec,
+                      ref=None if dc else expect, ref_kind=True)
+            return
+        # leading / trailing blanks around a documented spec are "extra whitespace": asserted like the plain form
+        ctx.clause('extra-whitespace-around-spec')
+    else:
+        spec = join_tokens(tokens, case.get('seps') or [' '])
     if dc:
         dont_care(ctx, case, 'outside-grammar/%s: %s' % (kind, dc), value, spec)
         return
